@@ -58,6 +58,7 @@ fn worker(args: &[String]) -> i32 {
     let wa = WorkerArgs { prop, thorough, seed, index, nworkers, cases, out: &out, known: &known };
     let acc = match engine.as_str() {
         "cache" => engines::worker_cache(&wa),
+        "dense" => engines::worker_dense(&wa),
         "corpus" => engines::worker_corpus(&wa, &root().join("corpus/cache")),
         "panic" => engines::worker_panic(&wa),
         "walks" => engines::worker_walks(&wa, Fate::Drop, 6, 3),
@@ -242,7 +243,10 @@ fn jobs_for(prop: &str, thorough: bool) -> Vec<Job> {
             jobs.push(Job { engine: "variants", build: "", asan: true, workers: 16, cases: if thorough { 1000 } else { 100 }, timeout_s: 3600 });
         }
     }
-    if matches!(prop, "C02" | "C04" | "C05" | "C06" | "C07" | "C13" | "C20") {
+    if matches!(prop, "C02" | "C04" | "C05" | "C06" | "C07" | "C10" | "C13" | "C15" | "C20") {
+        jobs.push(Job { engine: "dense", build: "", asan: false, workers: 16, cases: if thorough { 3000 } else { 300 }, timeout_s: 3600 });
+    }
+    if matches!(prop, "C02" | "C04" | "C05" | "C06" | "C07" | "C10" | "C13" | "C15" | "C20") {
         jobs.push(Job { engine: "geometry", build: "", asan: false, workers: 16, cases: 0, timeout_s: 1800 });
         if matches!(prop, "C06" | "C07") {
             jobs.push(Job { engine: "geometry", build: "", asan: true, workers: 16, cases: 0, timeout_s: 1800 });
@@ -363,6 +367,7 @@ fn crash_relevant(prop: &str, case_text: &str) -> bool {
     match prop {
         "C06" | "C07" | "C08" => true,
         "C12" => case_text.contains("iterwalk"),
+        "C13" => case_text.contains("refuse"),
         "C14" => case_text.contains("clone"),
         "C16" => case_text.contains("inject"),
         "C17" => case_text.contains("forget"),
